@@ -92,7 +92,7 @@ def generate(ck):
                 "window": [None, 1, 3, 5, 9][i % 5],
                 "n_iter": int(rng.integers(3, 41)),
                 "imax": float(rng.choice([10000.0, 12000.0])),
-                "inplace_factor": float(rng.choice([3.0, 50.0])),
+                "inplace_factor": float(rng.choice([1.02, 3.0, 50.0])),
                 "seed": int(rng.integers(0, 2**31)),
                 "table": str(rng.choice(["haynesville", "pvt_gas"])),
             }
@@ -250,6 +250,24 @@ def run_case(ck, desc):
     # the fitted p_initial must also dominate every pressure the objective saw
     if P["p_initial"].value < hi_p:
         ck.violation("p_initial-at-least-highest-frac-face-pressure", {"value": P["p_initial"].value, "highest": hi_p}, desc)
+    # refit from the previous result ("You can pass in results from previous fit"): the declared
+    # limits travel with the Parameters and must still be honoured
+    declared = {nm: (P[nm].min, P[nm].max) for nm in ("tau", "M", "p_initial")}
+    OBJ.clear()
+    with warnings.catch_warnings(), np.errstate(all="ignore"):
+        warnings.simplefilter("ignore")
+        result2 = fit_production_pressure(
+            prod, pvt, pressure_initial=min(desc["imax"], p_i * 1.05), filter_window_size=desc["window"], pressure_imax=desc["imax"],
+            inplace_max=inplace_max, filter_zero_prod_days=desc["filter"], n_iter=max(12, desc["n_iter"]), params=P,
+        )
+    OBJ.clear()
+    P2 = result2.params
+    for nm, (lo, hi) in declared.items():
+        if not (lo <= P2[nm].value <= hi):
+            ck.violation("fitted-value-within-declared-limits", {"param": nm, "value": P2[nm].value, "min": lo, "max": hi, "stage": "refit from previous Parameters"}, desc)
+        if (P2[nm].min, P2[nm].max) != (lo, hi):
+            ck.violation("declared-limits-kept-on-refit", {"param": nm, "limits": [P2[nm].min, P2[nm].max], "declared": [lo, hi]}, desc)
+    ck.count("refits_from_previous_parameters")
     return bool(len(evals) >= 3 and n_re == len(evals)), {"evaluations": len(evals), "worst_rel": worst, "kept_rows": int(keep.sum()), "of": n, "fit": {k: P[k].value for k in ("tau", "M", "p_initial")}}
 
 
